@@ -271,6 +271,11 @@ FIXED = [
     "fixed: property=C16 72ae32d prepare_fixed_decimal stored Decimal('-0') as -2 and silently truncated negative values that "
     "do not fit the fixed size (Decimal('-9'), precision 2, scale 2, size 1 -> 1.24) instead of raising",
     "fixed: property=C15 a0f0ebc json_writer raised 'No key was set' for a map entry whose key is the empty string",
+    "fixed: property=C10 2613132 validate (and writer(validator=True)) rejected a correctly '-type'-hinted record nested in a field: "
+    "the hint was compared with a name qualified by the field path (validate({'f': {'-type': 'Inner', 'x': 1}}, Outer{f: [null, Inner]}) "
+    "was False while the writer encodes it); also C09 ('-type' hint honoured by record validation)",
+    "fixed: property=C10 464d60e validate raised ValueError ('too many values to unpack') instead of returning False for a tuple "
+    "datum that is not a (name, value) pair (validate((1, 2, 3), ['null', array<int>], raise_errors=False))",
     "fixed: property=C18 6c01e0c read_decimal set the precision on a module-level decimal Context and then used it "
     "(schedule: A sets prec=9, B reads a precision-2 decimal, A resumes and returns 1.2E+6 for 1234567.89)",
 ]
